@@ -613,7 +613,11 @@ func (p *c12) Run(tier string, seed int64, idx int) core.CaseResult {
 		u.Add(yang.S("include", "fx-user-sub"))
 		yang.SortSections(u)
 		v.Mods = append(v.Mods, yang.S("submodule", "fx-user-sub", yang.S("belongs-to", "fx-user", yang.S("prefix", "fus")),
-			yang.S("augment", "/fus:fx-top/fus:plain", yang.S("leaf", "from-sub", yang.S("type", "string")))))
+			// (a mandatory leaf and a list that needs an entry among the added nodes: the target is a node of the
+			// submodule's own module, where an augment may add what it likes)
+			yang.S("augment", "/fus:fx-top/fus:plain", yang.S("leaf", "from-sub", yang.S("type", "string")),
+				yang.S("leaf", "from-sub-mandatory", yang.S("type", "string"), yang.S("mandatory", "true")),
+				yang.S("leaf-list", "from-sub-min", yang.S("type", "string"), yang.S("min-elements", "1")))))
 		vr := compileTexts(v.Texts(nil), nil, feats, nil, true)
 		res.Ev("submodule_variants_compiled", 1)
 		vin := input + "\n======== with an augment from a submodule (belongs-to prefix fus) ========\n" + textsString(v.Texts(nil))
